@@ -11,7 +11,7 @@ from .. import AnalysisError
 from ..cfg import cfg_of, own_exprs
 from ..poly import Poly
 from ..report import norm_text
-from . import _layout, _pipe
+from . import _inst, _layout, _pipe
 
 
 def eval_poly(p: Poly, env: dict, defs: dict):
@@ -61,9 +61,60 @@ def check(index, ctx):
     update_rule(ctx, rs)
     n_part = partition_rule(ctx, P, rs, "R1")
     ctx.floor("row-block partitions analysed", n_part, 3)
-    sweeps_and_guard(index, ctx)
+    sweeps_and_guard(index, _InstanceBacked(index, ctx))
     _pipe.common_evidence(ctx, index)
     ctx.assumptions.append("value-independence from k reduces to R1 plus the vstack of the blocks in block order (C01 R2); vmap ≡ sequential numerically is not decided")
+
+
+class _InstanceBacked:
+    """The rules R2 / R3 read the SHAPE of Jac._differentiate and of the chunk routine (call sites per loop iteration, guards of the vmap call). A
+    failed shape reading is not a witness: before reporting, the instance runs (sizes concrete, tensors abstract) are asked — they list the
+    sweeps of every (m, k) pair with their rows and whether torch.autograd.grad ran under torch.vmap."""
+
+    ASPECT = {"R2": "partition", "R3": "vmap"}
+
+    def __init__(self, index, ctx):
+        self._index, self._ctx = index, ctx
+
+    def _ask(self, rule):
+        out = []
+        for entry in ("backward", "mtl_backward"):
+            out.append(_inst.verdict(self._index, entry, self.ASPECT[rule]))
+        for st in ("violated", "undecided"):
+            for o in out:
+                if o[0] == st:
+                    return o
+        return out[0]
+
+    def violated(self, rule, key, text, loc, **kw):
+        if rule not in self.ASPECT:
+            return self._ctx.violated(rule, key, text, loc, **kw)
+        st, t2, der = self._ask(rule)
+        if st == "ok":
+            self._ctx.ok(rule, key, t2 + f" [shape reading failed: {text}]", loc, derivation=der)
+        elif st == "violated":
+            self._ctx.violated(rule, key, t2 + f" [shape reading: {text}]", loc, derivation=der)
+        else:
+            self._ctx.undecided(rule, key, text + "; " + t2, loc)
+
+    def require(self, cond, rule, key, ok_text, bad_text, loc, **kw):
+        if cond or rule not in self.ASPECT:
+            return self._ctx.require(cond, rule, key, ok_text, bad_text, loc, **kw)
+        self.violated(rule, key, bad_text, loc)
+
+    def undecided(self, rule, key, why, loc, **kw):
+        if rule not in self.ASPECT:
+            return self._ctx.undecided(rule, key, why, loc, **kw)
+        st, t2, der = self._ask(rule)
+        if st == "ok":
+            self._ctx.ok(rule, key, t2 + f" [shape reading failed: {why}]", loc, derivation=der)
+        elif st == "violated":
+            self._ctx.violated(rule, key, t2, loc, derivation=der)
+        else:
+            self._ctx.undecided(rule, key, why + "; " + t2, loc)
+
+    def __getattr__(self, name):
+        return getattr(self._ctx, name)
 
 
 def update_signature(res):
@@ -391,7 +442,11 @@ def sweeps_and_guard(index, ctx):
     nested_in_g = {id(x) for g2 in index.functions.values() if g2.parent is G for x in ast.walk(g2.node)}
     direct = cfg.nodes_containing(lambda x: applies_vjp(x) and id(x) not in nested_in_g)
     direct = [n for n in direct if not any(isinstance(x, ast.Call) and norm_text(x.func).endswith("partial") for e in own_exprs(n) for x in ast.walk(e))]
-    via_vmap = cfg.nodes_containing(lambda x: isinstance(x, ast.Call) and isinstance(x.func, ast.Call) and norm_text(x.func.func).split(".")[-1] == "vmap")
+    # `torch.vmap(f, ...)(blocks)`, or a local bound to `torch.vmap(f, ...)` and applied later
+    vmapped_names = {n_.targets[0].id for n_ in ast.walk(G.node) if isinstance(n_, ast.Assign) and len(n_.targets) == 1 and isinstance(n_.targets[0], ast.Name)
+                     and isinstance(n_.value, ast.Call) and norm_text(n_.value.func).split(".")[-1] == "vmap"}
+    via_vmap = cfg.nodes_containing(lambda x: isinstance(x, ast.Call) and ((isinstance(x.func, ast.Call) and norm_text(x.func.func).split(".")[-1] == "vmap")
+                                                                         or (isinstance(x.func, ast.Name) and x.func.id in vmapped_names)))
     direct = [n for n in direct if n not in via_vmap]
     cnt = {sum(1 for n in p if n in direct or n in via_vmap) for p in cfg.acyclic_paths()}
     ctx.require(cnt == {1}, "R2", f"{G.short}: the VJP callable is applied exactly once per block", "one application on every path",
